@@ -435,14 +435,66 @@ def r4(ctx):
          'the heap is ordered by load first; comparing index first (or reversing a branch) makes the root an arbitrary node')
 
 
+def swap_effect(fnode, h, i, j):
+  """Symbolic execution of the straight-line body of Swap(h, i, j): afterwards slot i holds the old node of slot j and vice
+  versa, and each of the two nodes has its .index set to the slot it now occupies."""
+  slot = {i: 'A', j: 'B'}
+  env = {}
+  index = {}
+
+  class Bad(Exception):
+    pass
+
+  def ev(e):
+    if isinstance(e, ast.Subscript) and isinstance(e.value, ast.Name) and e.value.id == h and isinstance(e.slice, ast.Name) and e.slice.id in slot:
+      return slot[e.slice.id]
+    if isinstance(e, ast.Name):
+      if e.id in env:
+        return env[e.id]
+      if e.id in (i, j):
+        return e.id
+    if isinstance(e, ast.Tuple):
+      return tuple(ev(x) for x in e.elts)
+    if isinstance(e, ast.Attribute) and e.attr == 'index':
+      return index.get(ev(e.value), '?')
+    raise Bad()
+
+  def st(t, v):
+    if isinstance(t, ast.Name):
+      env[t.id] = v
+    elif isinstance(t, ast.Subscript) and isinstance(t.value, ast.Name) and t.value.id == h and isinstance(t.slice, ast.Name) and t.slice.id in slot:
+      slot[t.slice.id] = v
+    elif isinstance(t, ast.Attribute) and t.attr == 'index':
+      index[ev(t.value)] = v
+    elif isinstance(t, (ast.Tuple, ast.List)) and isinstance(v, tuple) and len(v) == len(t.elts):
+      # the right-hand side is evaluated completely first; targets left to right
+      for x, y in zip(t.elts, v):
+        st(x, y)
+    else:
+      raise Bad()
+  try:
+    for s_ in fnode.body:
+      if isinstance(s_, ast.Expr) and isinstance(s_.value, ast.Constant):
+        continue
+      if isinstance(s_, ast.Pass) or (isinstance(s_, ast.If) and all(isinstance(x, ast.Pass) for x in s_.orelse) and all(isinstance(x, ast.Raise) for x in s_.body)):
+        continue
+      if isinstance(s_, ast.Assign):
+        v = ev(s_.value)
+        for t in s_.targets:
+          st(t, v)
+        continue
+      raise Bad()
+  except Bad:
+    return False
+  return slot == {i: 'B', j: 'A'} and index == {'B': i, 'A': j}
+
+
 def r5(ctx):
   prog = ctx.prog
   why = 'the sift routines must implement a binary min-heap on a 1-based array: parent of i is i//2, children are 2i and 2i+1 bounded by the live size'
   sw = prog.func(H, 'Heap.Swap')
-  t = U(sw.node).replace(' ', '')
   h, i, j = sw.params
-  ok = ('%s[%s],%s[%s]=(%s[%s],%s[%s])' % (h, i, h, j, h, j, h, i) in t or '%s[%s],%s[%s]=%s[%s],%s[%s]' % (h, i, h, j, h, j, h, i) in t) and \
-    '%s[%s].index=%s' % (h, i, i) in t and '%s[%s].index=%s' % (h, j, j) in t
+  ok = swap_effect(sw.node, h, i, j)
   ctx.ob('C03.R5', sw, 'Swap exchanges both slots and updates both index fields', ok, 'Swap body changed', 'node.index must always be the node position: repairs and removal start from it')
   sift_rules(ctx, why)
 
